@@ -36,7 +36,9 @@ Verdict(r) ==
          IF r.panic THEN "key-id-parser-panicked"
          ELSE IF r.ok /\ ~r.header_exact THEN "key-id-with-a-malformed-type-header-accepted"
          ELSE IF r.header_exact /\ r.ok # (r.len = 33) THEN (IF r.ok THEN "key-id-of-the-wrong-length-accepted" ELSE "33-byte-key-id-rejected")
-         ELSE IF r.ok /\ ~(r.text_back /\ r.bytes_back) THEN "key-id-does-not-round-trip-through-text" ELSE "ok"
+         ELSE IF r.de_ok # r.ok THEN "serde-accepts-another-set-of-key-id-strings"
+         ELSE IF r.ok /\ ~(r.text_back /\ r.bytes_back) THEN "key-id-does-not-round-trip-through-text"
+         ELSE IF r.ok /\ ~r.serde_same THEN "key-id-differs-through-serde" ELSE "ok"
     [] r.fn = "inc128" -> IF r.out = Inc128(r.x, r.j) THEN "ok" ELSE "evaluator-counter-arithmetic-differs-from-Ctr"
     [] r.fn = "term" ->
          IF r.rel # Prescribed(r) THEN "wrong-relation-reported"
